@@ -10,19 +10,23 @@ DRV = 'drv_c02'
 
 REGISTRY = {
     'id': 'C02',
-    'text': 'Lean (12 theorems): kernel-checked table obligations over modules regenerated from constants.py / data/chem.txt on every run '
+    'text': 'Lean (25 theorems): kernel-checked table obligations over modules regenerated from constants.py / data/chem.txt on every run '
             '(24 residue formulas = hand-typed formulas; 21 NIST nuclide masses within 1e-8; average masses within 1e-6; CODATA particles '
-            'and |PROTON_MASS - (m(1H) - m_e)| <= 2e-8; ion-offset tables = backbone chemistry for 18 ion types x 2 modes) and '
-            'mass_eq_spec_partial / mz_eq_spec_partial: for every annotation in the specification domain (any placement and multiplier, '
-            'global rules, any charge, isotope offset, loss, precision, both modes) the executable model of mass / mz equals residues + '
-            'ion offset + sum mult x mod mass + charge term + isotope x neutron + loss, rounded last; precision_bound; the adduct arithmetic '
-            'of the current code is characterised exactly (adductMass_discrepancy) with a counter-example theorem for the full statement. '
-            'The model is tied to /repo by differential correspondence at 1e-7 Da (both code paths, all derived tables) and the '
-            'implementation is compared with the hand-typed NIST reference at 1e-5 Da (monoisotopic) / 2e-3 Da (average)',
-    'note': 'trusted: Lean kernel; translator of the two tables; hand-typed NIST/CODATA reference data; modification name resolution and '
-            'static-rule text parsing are parameters of the model (C10 / C12); float summation error bounded by the 1e-7 correspondence '
-            'tolerance. Not proved, correspondence + oracle only: adduct lists as a whole (known finding KF-C02-adduct-electron-count), '
-            'the isotope-label path against a label-substituting specification (C12)',
+            'and |PROTON_MASS - (m(1H) - m_e)| <= 2e-8; ion-offset tables = backbone chemistry for 18 ion types x 2 modes; both encodings of '
+            'the +1 ions) and, for the executable model of mass / mz: mass_eq_spec_partial / mz_eq_spec_partial / mass_eq_spec_concrete '
+            '(every annotation in the specification domain: any placement and multiplier, global rules read by the modelled '
+            'parse_static_mods, any charge, isotope offset, loss, both modes: mass = residues + ion offset + sum mult x mod mass + charge '
+            'term + isotope x neutron + loss); mass_eq_spec_adducts (explicit adduct lists: the same sum plus the exactly characterised '
+            'defect sum q*m_e*(count-1), zero when every count is 1 - the known finding); mass_label_eq_spec (isotope-label path = sum of '
+            'parts with the element substituted: labelShift on residues, ion offset and charge carrier, on modifications only with '
+            'use_isotope_on_mods); mass_precision_last / mass_precision_bound (precision applied last on both paths, error <= half a unit '
+            'of the last place); reference_closeness (library tables vs hand-typed NIST for any composition). The model is tied to '
+            '/repo by differential correspondence at 1e-7 Da (every line of the modelled functions is executed in the quick tier) and '
+            'the implementation is compared with the hand-typed NIST reference at 1e-5 Da (monoisotopic) / 2e-3 Da (average), '
+            'labelled peptides included',
+    'note': 'trusted: Lean kernel; translator of the two tables; hand-typed NIST/CODATA reference data; per-value modification '
+            'resolution is a parameter of the model (C10); float summation error bounded by the 1e-7 correspondence tolerance. Not '
+            'proved, correspondence + oracle only: global rules / adduct lists combined with isotope labels; float rounding near ties',
     'technique': 'Lean 4 proof about executable model + generated tables checked by kernel evaluation + differential correspondence '
                  '+ independent reference oracle',
 }
@@ -611,6 +615,69 @@ def run(chk):
 
     chk.oracle('label_path_loss_and_precision', lcases, o_label, key_fn=lambda c: json.dumps(obj_of(*c), sort_keys=True), max_report=50)
     _attach_cases(chk, 'label_path_loss_and_precision', lcases, o_label)
+
+    # ------------------------------------------------------------------ oracle 4: labelled precursor = unlabelled reference + n(E)*(m(L)-m(E))
+    rf = chk.driver(DRV, ['table\tspec_residues'])[0]
+    res_formula = {}
+    for e in rf.split(';'):
+        k, v = e.split(':', 1)
+        res_formula[k] = {kk: float(vv) for kk, vv in cm.parse_model_comp(v).items()}
+    LABELS = {'13C': 'C', '15N': 'N', '18O': 'O', '17O': 'O', 'D': 'H', 'T': 'H', '34S': 'S', '2H': 'H'}
+    lab_cases = []
+    for _ in range(250 if tier == 'quick' else 6000):
+        seq = ''.join(rng.choice(cm.RES22) for _ in range(rng.randint(1, 12)))
+        labs = rng.sample(['13C', '15N', '18O', 'D', '34S', '17O', 'T', '2H'], rng.choice([1, 1, 2]))
+        if len({LABELS[x] for x in labs}) != len(labs):
+            labs = labs[:1]
+        a = _PA(_sequence=seq)
+        if rng.random() < 0.5:
+            a._internal_mods = {rng.randint(0, len(seq) - 1): [_Mod(rng.choice([15.995, 1, 42.0106, -17.5]), rng.choice([1, 2]))]}
+        kw = {'charge': rng.choice([0, 0, 1, 2, 3]), 'monoisotopic': True}
+        if rng.random() < 0.5:
+            a._isotope_mods = [_Mod(x, 1) for x in labs]
+        else:
+            kw['isotope_mods'] = [_Mod(x, 1) for x in labs]
+        if rng.random() < 0.3:
+            kw['loss'] = rng.choice([-18.010565, 1.0])
+        if rng.random() < 0.3:
+            kw['isotope'] = rng.randint(0, 2)
+        lab_cases.append((a, kw, labs))
+    base_lines = []
+    for a, kw, labs in lab_cases:
+        b = a.copy()
+        b._isotope_mods = None
+        k2 = {k: v for k, v in kw.items() if k != 'isotope_mods'}
+        base_lines.append(cm.line('spec_mass', b, k2, prefix=('nist',)))
+    base_out = chk.driver(DRV, base_lines)
+    base_of = {id(c): r for c, r in zip(lab_cases, base_out)}
+
+    def o_labelled(c):
+        a, kw, labs = c
+        ref = base_of[id(c)]
+        if not ref.startswith('ok '):
+            return None
+        ref = float(ref[3:])
+        z = kw.get('charge', 0)
+        for lab in labs:
+            el = LABELS[lab]
+            n = sum(res_formula[aa].get(el, 0) for aa in a._sequence) + {'H': 2, 'O': 1}.get(el, 0) + (z if el == 'H' else 0)
+            src = nuc['D'] if lab == '2H' else nuc[lab]
+            ref += n * (src - nuc[el])
+        got = pt.mass(a.copy(), **kw)
+        if abs(got - ref) > 1e-5:
+            return (f'labelled mass = {got!r}; reference (NIST sum of parts with {labs} substituted in residues, water and '
+                    f'charge-carrying hydrogens) = {ref!r} (diff {got - ref:.3g})')
+        return None
+
+    chk.oracle('labelled_precursor_vs_reference', lab_cases, o_labelled, key_fn=lambda c: json.dumps(obj_of(c[0], c[1]), sort_keys=True) ,
+               max_report=20)
+    for f in chk.failures:
+        if f['oracle'] == 'labelled_precursor_vs_reference' and not isinstance(f['case'], dict):
+            for c in lab_cases:
+                if repr(c) == f['case']:
+                    f['case'] = obj_of(c[0], c[1])
+                    f['function'] = 'peptacular.mass'
+                    break
 
     cm.attach_reach(chk, reach)
     if tier == 'thorough':
